@@ -1077,10 +1077,7 @@ func c12GenSources(r *Rng, p *profile.Profile) []c12SrcEntry {
 // c12GenMode returns a mode string and what it requests.
 func c12GenMode(r *Rng) (mode string, wantForce int, localOnly bool) {
 	var toks []string
-	base := r.Pick([]string{"", "", "local", "local", "fastlocal", "remote", "remote", "none", "no"})
-	if r.Chance(6) {
-		base = "none"
-	}
+	base := r.Pick([]string{"", "", "", "local", "local", "local", "fastlocal", "remote", "remote", "remote", "none", "no"})
 	localOnly = base == "local" || base == "fastlocal"
 	if base != "" || r.Chance(20) {
 		toks = append(toks, base)
